@@ -655,6 +655,13 @@ impl<R: io::Read + io::Seek> IndexedReader<R> {
     fn seek_to(&mut self, idx: &IndexRecord, start: u64) -> io::Result<u64> {
         assert!(start <= idx.len);
 
+        if idx.line_bases == 0 {
+            // A record without bases has no sequence lines; its index entry (as written by
+            // `samtools faidx`) has zero bases per line.
+            self.reader.seek(io::SeekFrom::Start(idx.offset))?;
+            return Ok(0);
+        }
+
         let line_offset = start % idx.line_bases;
         let line_start = start / idx.line_bases * idx.line_bytes;
         let offset = idx.offset + line_start + line_offset;
